@@ -76,7 +76,9 @@ func (session *BasicHttpSubSession) Write(b []byte) {
 			PayloadLength: uint64(len(b)),
 			Masked:        false,
 		}
-		session.write(MakeWsFrameHeader(wsHeader))
+		// 注意，帧头和负载作为一个整体写入发送队列，避免队列满时只写入了其中一部分，破坏对端的帧边界
+		_, _ = session.conn.Writev(net.Buffers{MakeWsFrameHeader(wsHeader), b})
+		return
 	}
 	session.write(b)
 }
